@@ -85,6 +85,7 @@ func runRules(ps *PropertySpec, p *Program, deep bool) (rep *Report) {
 			continue
 		}
 		rep.cur = rule
+		t0 := time.Now()
 		func() {
 			defer func() {
 				if x := recover(); x != nil {
@@ -98,6 +99,9 @@ func runRules(ps *PropertySpec, p *Program, deep bool) (rep *Report) {
 				rep.Unresolved("instance count %d below floor %d (rule no longer matches the code it was written for)", n, rule.Floor)
 			}
 		}()
+		if os.Getenv("GV_TIMING") != "" {
+			fmt.Fprintf(os.Stderr, "timing %s %.2fs\n", rule.ID, time.Since(t0).Seconds())
+		}
 	}
 	rep.cur = nil
 	return rep
